@@ -123,6 +123,15 @@ func genDir(rt *rapid.T, label string, window int) DirScript {
 		d.PauseEvery = rapid.IntRange(1, 8).Draw(rt, label+".pause_every")
 		d.PauseUs = rapid.SampledFrom([]int{1, 50, 500, 2000}).Draw(rt, label+".pause_us")
 	}
+	if rapid.IntRange(0, 3).Draw(rt, label+".early_cw") == 0 {
+		if rapid.IntRange(0, 1).Draw(rt, label+".early_cw.mode") == 0 {
+			d.EarlyCw = "delay"
+			d.EarlyCwArg = rapid.SampledFrom([]int{0, 20, 100, 500, 2000}).Draw(rt, label+".early_cw.us")
+		} else {
+			d.EarlyCw = "read"
+			d.EarlyCwArg = rapid.SampledFrom([]int{0, 1, 100, 5000, 70000}).Draw(rt, label+".early_cw.bytes")
+		}
+	}
 	d.ZeroEvery = rapid.SampledFrom([]int{0, 8, 8, 5, 13}).Draw(rt, label+".zero_every")
 	if rapid.IntRange(0, 3).Draw(rt, label+".kicked") == 0 {
 		d.Kicks = rapid.IntRange(1, 4).Draw(rt, label+".kicks")
@@ -489,6 +498,102 @@ func canonicalConcurrentOpen() *WorkCase {
 	return c
 }
 
+// genCwWork draws a workload that concentrates on one race: 2-4 streams whose
+// writers push several large chunks through a small-to-medium window (so a
+// Write is in flight for a long time, cycling through window updates) while
+// another goroutine half-closes the writing end after a short delay or once
+// the reader has consumed k bytes; plus one bystander stream with ordinary
+// traffic that must keep working.
+func genCwWork(rt *rapid.T) *WorkCase {
+	c := &WorkCase{}
+	c.Even = rapid.IntRange(0, 1).Draw(rt, "even")
+	c.PipeCap = rapid.SampledFrom([]int{64, 4096, 65536, 1 << 20}).Draw(rt, "pipe_cap")
+	for s := 0; s < 2; s++ {
+		c.Cfg[s] = MuxCfg{
+			Window:  rapid.SampledFrom([]int{1000, 4096, 65535}).Draw(rt, fmt.Sprintf("cfg%d.window", s)),
+			Buffers: rapid.IntRange(1, 5).Draw(rt, fmt.Sprintf("cfg%d.buffers", s)),
+			Backlog: 10,
+		}
+	}
+	n := rapid.IntRange(2, 4).Draw(rt, "streams")
+	for i := 0; i < n; i++ {
+		l := fmt.Sprintf("s%d", i)
+		sc := StreamScript{Opener: rapid.IntRange(0, 1).Draw(rt, l+".opener")}
+		for k := 0; k < 2; k++ {
+			d := DirScript{End: "cw", Bufs: []int{rapid.SampledFrom([]int{512, 4096, 32768}).Draw(rt, fmt.Sprintf("%s.%d.buf", l, k))}, StopAfter: -1}
+			if k == 0 || rapid.IntRange(0, 1).Draw(rt, l+".both") == 0 {
+				d.Chunks = rapid.SliceOfN(rapid.SampledFrom([]int{65536, 100000, 200000}), 2, 5).Draw(rt, fmt.Sprintf("%s.%d.chunks", l, k))
+				if rapid.IntRange(0, 1).Draw(rt, fmt.Sprintf("%s.%d.mode", l, k)) == 0 {
+					d.EarlyCw = "delay"
+					d.EarlyCwArg = rapid.SampledFrom([]int{0, 20, 100, 300, 1000}).Draw(rt, fmt.Sprintf("%s.%d.us", l, k))
+				} else {
+					d.EarlyCw = "read"
+					d.EarlyCwArg = rapid.SampledFrom([]int{1, 1000, 30000, 70000, 150000}).Draw(rt, fmt.Sprintf("%s.%d.bytes", l, k))
+				}
+			}
+			sc.Dir[k] = d
+		}
+		c.Streams = append(c.Streams, sc)
+	}
+	by := StreamScript{Opener: rapid.IntRange(0, 1).Draw(rt, "bystander.opener"), DelayUs: 50}
+	for k := 0; k < 2; k++ {
+		by.Dir[k] = DirScript{Chunks: []int{1000, 70000, 1}, End: "cw", Bufs: []int{4096}, StopAfter: -1, PauseEvery: 3, PauseUs: 200}
+	}
+	c.Streams = append(c.Streams, by)
+	return c
+}
+
+// TestConcurrentCloseWrite: CloseWrite from another goroutine while a Write on
+// the same stream is in flight (C23: the bytes read before end-of-stream are
+// exactly what the Write calls reported; C24: no data after close-write on the
+// wire, no teardown, the bystander stream keeps working).
+func TestConcurrentCloseWrite(t *testing.T) {
+	if ev.ReplayPath() != "" {
+		t.Skip("replaying")
+	}
+	p := prop()
+	if p != "C23" && p != "C24" {
+		t.Skip("belongs to C23 and C24")
+	}
+	rule := "rapid: 2-4 streams whose writers push 2-5 chunks of 64-200 kB through windows of 1000..65535 bytes while another goroutine calls CloseWrite on the writing end after 0-1000 us or once the reader consumed 1..150000 bytes, plus a bystander stream with ordinary traffic; "
+	if p == "C23" {
+		rule += "oracle: the bytes the peer reads before end-of-stream are exactly the concatenation of the counts the Write calls reported (including the short count of the Write cut off with ErrWriteClosed), correct at every offset, the bystander's data is complete, no teardown; "
+	} else {
+		rule += "oracle: no teardown + wire reference model (in particular no data message after the sender's close-write); "
+	}
+	rule += "non-trivial: a Write was cut short by the concurrent CloseWrite (returned ErrWriteClosed)"
+	rec := ev.New(t, p, "concurrent-close-write", rule)
+	_, known := ev.KnownClass(p, knownConcurrentOpen)
+	var failed *WorkCase
+	var failedMsg string
+	ev.Check(t, rec, 120, 1500, func(rt *rapid.T) {
+		c := genCwWork(rt)
+		if failed != nil {
+			ev.Failf(rt, rec, failed, "%s", failedMsg)
+		}
+		r := judgeWorkStable(c, p == "C24", known, p)
+		rec.Eval()
+		v := r.Violation
+		if p == "C24" && !strings.Contains(v, "torn down") && !strings.Contains(v, "wire protocol") {
+			v = ""
+		}
+		if v != "" {
+			// The race needs no shrinking and may not reproduce: keep the
+			// first failing case.
+			failed, failedMsg = c, v
+			ev.Failf(rt, rec, c, "%s", v)
+		}
+		if r.CutShort > 0 {
+			rec.Class("write-cut-short-by-close-write")
+			b, _ := json.Marshal(c)
+			rec.NonTrivial(ev.Hash(string(b)))
+			if rec.WantSample() {
+				rec.Sample(map[string]any{"case": c, "writes_cut_short": r.CutShort, "bytes_read": r.Bytes})
+			}
+		}
+	})
+}
+
 func TestWorkload(t *testing.T) {
 	if ev.ReplayPath() != "" {
 		t.Skip("replaying")
@@ -497,7 +602,7 @@ func TestWorkload(t *testing.T) {
 	if p != "C23" && p != "C24" {
 		t.Skip("workload belongs to C23 and C24")
 	}
-	rule := "rapid: 1-8 concurrent streams opened from either side over two real multiplexers (receive windows 1..200000, 1-5 write buffers, backlog 1-10, optional heartbeats, bounded carrier buffering, read fragmentation), per direction a writer script (chunks 0..200 kB, half-close or close at the end) and a reader script (buffers 1..70 kB, about every 8th read with a zero-length buffer, pauses, early close), content keyed by stream and direction; "
+	rule := "rapid: 1-8 concurrent streams opened from either side over two real multiplexers (receive windows 1..200000, 1-5 write buffers, backlog 1-10, optional heartbeats, bounded carrier buffering, read fragmentation), per direction a writer script (chunks 0..200 kB, half-close or close at the end, in a quarter of the directions a CloseWrite from another goroutine while the writer is writing) and a reader script (buffers 1..70 kB, about every 8th read with a zero-length buffer, pauses, early close), content keyed by stream and direction; "
 	if p == "C23" {
 		rule += "oracle: bytes read are a prefix of the bytes written and correct at every offset, end-of-stream only after the writer (half-)closed and everything was read, complete delivery when nothing was closed early, documented errors only, no teardown; "
 	} else {
@@ -807,7 +912,7 @@ func TestReplay(t *testing.T) {
 		if r.Violation != "" {
 			ev.FailTB(t, rec, &c, "%s\nhistory:\n  %s", r.Violation, strings.Join(r.Log, "\n  "))
 		}
-	case "workload":
+	case "workload", "concurrent-close-write":
 		var c WorkCase
 		if _, err := ev.LoadReplay(ev.ReplayPath(), &c); err != nil {
 			t.Fatalf("cannot load replay: %v", err)
